@@ -16,7 +16,8 @@ use serde_json::{json, Value};
 
 use crate::common::*;
 
-const CHILD_WATCHDOG_S: u64 = 1500;
+const CHILD_WATCHDOG_QUICK_S: u64 = 1500;
+const CHILD_WATCHDOG_THOROUGH_S: u64 = 9000;
 
 pub fn run(ctx: &Ctx, rep: &mut Report) {
     match ctx.leg.as_str() {
@@ -146,6 +147,8 @@ fn child<W: Worker>(ctx: &Ctx, rep: &mut Report) {
 }
 
 fn parent(ctx: &Ctx, rep: &mut Report, group: &str) {
+    #[allow(non_snake_case)]
+    let CHILD_WATCHDOG_S = if ctx.thorough() { CHILD_WATCHDOG_THOROUGH_S } else { CHILD_WATCHDOG_QUICK_S };
     let exe = std::env::current_exe().expect("current exe");
     let dir = std::env::temp_dir().join(format!("bpv-c16-{}-{}-{}", std::process::id(), group, ctx.shard));
     let _ = std::fs::create_dir_all(&dir);
